@@ -14,6 +14,9 @@ CHECKS = {
    "For every exported query method (names of the statement, all Is*/Can* methods, plain getters; enumerated from go/types each run) the transitive write set over all in-package callees is proved empty on every non-fresh object, returned slices/maps are proved to be allocated during the call, and no nondeterministic source is reachable. With no write to shared memory, repeated and concurrent queries cannot interfere or race; this is a proof of the property for all inputs and schedules of queries.",
    "Trusted: go/ssa lowering, root tracing, a purity table for the standard-library functions used. Not covered: user closures/String() methods called by queries (listed as USER edges), stdlib-internal synchronisation, query-vs-mutator races (C10)."),
 
+ "C03": ("other", "inductive invariant over all slice-header stores of the package (enumerated from go/ssa): slot-0 provenance analysis + linear-arithmetic entailment (Fourier-Motzkin) of len <= capacity from path guards under the induction hypothesis; who-may-write check on the capacity word; return-case equations for the observers", "DESIGN.md §3 R-CAP/R-CAPEQ/R-SLOT0, §4 C03",
+   "INV: capacity word == 0 or len(header) <= capacity word, for every header any stack ever holds. Base: newStack (word = request+1, backing array made with it). Frame: the word is written nowhere else, slot 0 always keeps the same configuration (provenance of every stored header; element stores/bulk copies use slots >= 1). Step: each of the 10 header stores of the package keeps INV on every path (linear entailment from isFull()==false on the very header extended / Insert's guard). Observers Len/Cap/Avail/IsFull/isFull are proved equal to their linear forms, which gives Cap()==k, Avail()==k-Len(), IsFull()==(Len()==k), -1/-1/false without capacity, and Len() <= k for all sequential histories of any calls.",
+   "Level other: hand-written domains; which surplus values are dropped (order) is not decided; Defrag's truncation inherits the range assumption of C08; concurrency is C10."),
  "C08": ("other", "whole-package panic-site census: index/slice bounds discharged by linear integer entailment (Fourier-Motzkin over path facts with overflow-aware arithmetic atoms, inductive loop bounds, by-case inlining of length helpers, interprocedural preconditions); nil/reflect/type-assertion/division sites discharged by path-sensitive facts (go/ssa)", "DESIGN.md §3 R-BND/R-NIL/R-REFL/R-CANIF/R-TA/R-DIV, §4 C08",
    "Every instruction of the package that can panic on an argument value - index, slice and string-index expressions (about 110 non-trivial sites), nil dereferences (about 1460), panicking reflect.Value calls, unchecked type assertions, integer divisions - is proved safe on every path for unconstrained 64-bit integers (sums/differences are related to their operands only where overflow is excluded, so MinInt/MaxInt are covered) and arbitrary element values (typed nils of any depth, zero Stacks/Conditions, zero reflect.Values, unexported struct fields), or turned into a precondition checked at every call site; exported entry points may require nothing. Element writes and user-visible element reads on a stack need index >= 1, so the configuration slot cannot be written or returned through any index, and no element write is reachable with an out-of-range index.",
    "Level other: the census is close to a proof of panic freedom but the domains are hand-written. One site assumed (Defrag's truncation index; DESIGN.md). '-k addresses the k-th from the end' is decided only as the proved result range of the index translation; panics inside user closures/String() methods and runtime panics (out of memory, stack overflow through self-containing stacks) are excluded."),
